@@ -449,7 +449,7 @@ pub fn build_ip4(spec: &Spec) -> Ipv4Header {
     let m: [u8; 8] = spec.arr("ipm");
     let opts = spec.b("ipopts");
     let ol = (opts.len().min(40) / 4) * 4;
-    Ipv4Header {
+    let fresh = Ipv4Header {
         dscp: IpDscp::try_new(m[6] >> 2).unwrap(),
         ecn: IpEcn::try_new(m[6] & 3).unwrap(),
         total_len: u16::from_be_bytes([m[4], m[5]]),
@@ -463,7 +463,16 @@ pub fn build_ip4(spec: &Spec) -> Ipv4Header {
         source: spec.arr("src"),
         destination: spec.arr("dst"),
         options: Ipv4Options::try_from(&opts[..ol]).unwrap(),
+    };
+    // same idea as in build_tcp: the options of a re-used header were longer before
+    if spec.n("ipcks") & 3 == 0 {
+        let mut h = Ipv4Header { options: Ipv4Options::try_from(&[0xaau8; 40][..]).unwrap(), ..fresh.clone() };
+        h.options = Ipv4Options::try_from(&[0x55u8; 8][..]).unwrap();
+        h.options = Ipv4Options::try_from(&opts[..ol]).unwrap();
+        assert!(h == fresh);
+        return h;
     }
+    fresh
 }
 
 pub fn build_ip6(spec: &Spec) -> Ipv6Header {
@@ -482,7 +491,7 @@ pub fn build_ip6(spec: &Spec) -> Ipv6Header {
 pub fn build_tcp(spec: &Spec) -> TcpHeader {
     let f = spec.n("flags");
     let opts = spec.b("opts");
-    TcpHeader {
+    let fresh = TcpHeader {
         source_port: spec.n("sp") as u16,
         destination_port: spec.n("dp") as u16,
         sequence_number: spec.n("seq") as u32,
@@ -500,7 +509,22 @@ pub fn build_tcp(spec: &Spec) -> TcpHeader {
         checksum: spec.n("cks") as u16,
         urgent_pointer: spec.n("urg") as u16,
         options: TcpOptions::try_from_slice(&opts[..opts.len().min(40)]).unwrap(),
+    };
+    // A quarter of the headers are not built fresh but reach the same value through a history on one
+    // object (a sender re-using its header struct): longest possible options first, then an element
+    // list, then the real ones. "Every checksum the crate computes from header structs" includes
+    // structs in every reachable state; the result must be `==` to the fresh value.
+    if spec.n("seq") & 3 == 0 {
+        let mut h = TcpHeader { options: Default::default(), ..fresh.clone() };
+        let _ = h.set_options_raw(&[0xaa; 40]);
+        if spec.n("seq") & 4 == 0 {
+            let _ = h.set_options(&[TcpOptionElement::Timestamp(0x5555_5555, 0x5555_5555), TcpOptionElement::MaximumSegmentSize(0x5555)]);
+        }
+        h.set_options_raw(&opts[..opts.len().min(40)]).unwrap();
+        assert!(h == fresh, "a TcpHeader whose options were replaced differs from a fresh one: {:?} vs {:?}", h, fresh);
+        return h;
     }
+    fresh
 }
 
 pub const ICMP4_VARIANTS: u64 = 9;
